@@ -1,6 +1,8 @@
 import Lean.Data.Json
 import Pyvsc.Model.Values
 import Pyvsc.Spec.Values
+import Pyvsc.Model.Bins
+import Pyvsc.Spec.Bins
 /-!
 # pvdrv — line-protocol driver for the executable model
 
@@ -66,9 +68,201 @@ def handleValues (op : String) (j : Json) : Except String Json := do
       pure <| Json.mkObj [("vals", Json.arr (vals.map jInt).toArray), ("e2v", Json.arr e2v.toArray), ("v2e", Json.arr v2e.toArray)]
   | _ => throw s!"unknown op {op}"
 
+def jNat (v : Nat) : Json := Json.num (JsonNumber.fromNat v)
+def jRL (l : Pyvsc.Ranges.RL) : Json := Json.arr (l.map (fun r => Json.arr #[jInt r.1, jInt r.2])).toArray
+def jOpt (f : α → Json) : Option α → Json
+  | some a => f a
+  | none => Json.str "error"
+
+def asRL (j : Json) : Except String Pyvsc.Ranges.RL := do
+  let a ← j.getArr?
+  a.toList.mapM (fun r => do
+    let p ← r.getArr?
+    if p.size == 2 then pure ((← p[0]!.getInt?), (← p[1]!.getInt?))
+    else if p.size == 1 then let v ← p[0]!.getInt?; pure (v, v)
+    else throw "bad range")
+def getRL (j : Json) (k : String) : Except String Pyvsc.Ranges.RL := do asRL (← j.getObjVal? k)
+def asNatPairs (j : Json) : Except String (List (Nat × Nat)) := do
+  let l ← asRL j
+  pure (l.map (fun r => (r.1.toNat, r.2.toNat)))
+
+open Pyvsc in
+def asPat (j : Json) : Except String Wildcard.Pat := do
+  match j.getObjVal? "s" with
+  | .ok s => pure (Wildcard.Pat.str (← s.getStr?))
+  | .error _ =>
+    let vm ← getA j "vm"
+    pure (Wildcard.Pat.vm (← vm[0]!.getNat?) (← vm[1]!.getNat?))
+
+open Pyvsc in
+def handleRanges (op : String) (j : Json) : Except String Json := do
+  match op with
+  | "r.compact" => pure <| jRL (Ranges.compact (← getRL j "l"))
+  | "r.subtract" => pure <| jOpt jRL (Ranges.subtract (← getRL j "l") (← getRL j "ex"))
+  | "r.contains" => pure <| Json.bool (Ranges.contains (← getRL j "l") (← getI j "v"))
+  | _ => throw s!"unknown op {op}"
+
+open Pyvsc in
+def handleWild (op : String) (j : Json) : Except String Json := do
+  match op with
+  | "w.str2bin" => do
+      let r := Wildcard.str2bin (← getS j "s")
+      pure (jOpt (fun (p : Nat × Nat) => Json.arr #[jNat p.1, jNat p.2]) r)
+  | "w.expand" => do
+      let r := Wildcard.valmask2binlist (← getN j "value") (← getN j "mask")
+      pure (jOpt (fun (l : List (Nat × Nat)) => jRL (l.map (fun r => ((r.1 : Int), (r.2 : Int))))) r)
+  | "w.arrayRanges" => do
+      let ps ← (← getA j "pats").toList.mapM asPat
+      pure <| jOpt jRL (Wildcard.wildArrayRanges ps)
+  | "w.hit" => do
+      let specs ← asNatPairs (← j.getObjVal? "specs")
+      pure <| Json.bool (Wildcard.wcHit specs (← getN j "v"))
+  | _ => throw s!"unknown op {op}"
+
+open Pyvsc Pyvsc.Bins in
+def asBinSpec (exclude : Ranges.RL) (j : Json) : Except String (Option (Option BinM)) := do
+  let name ← getS j "name"
+  let kind ← getS j "kind"
+  match kind with
+  | "bin" => pure (buildBin name (← getRL j "ranges") exclude)
+  | "bin_array" => pure ((buildBinArray name (← getI j "nbins") (← getRL j "ranges") exclude).map some)
+  | "wild" => do
+      let ps ← (← getA j "pats").toList.mapM asPat
+      match ps.mapM Wildcard.Pat.valmask with
+      | none => pure none
+      | some specs => pure (some (some (BinM.leaf (Leaf.wild name specs))))
+  | "wild_array" => do
+      let ps ← (← getA j "pats").toList.mapM asPat
+      match Wildcard.wildArrayRanges ps with
+      | none => pure none
+      | some rl => pure ((buildWildArray name (← getI j "nbins") rl).map some)
+  | _ => throw s!"unknown bin kind {kind}"
+
+open Pyvsc Pyvsc.Bins in
+def buildCp (j : Json) : Except String (Option Cp) := do
+  let ign ← (← getA j "ignore").toList.mapM (fun b => do pure ((← getS b "name"), (← getRL b "ranges")))
+  let ill ← (← getA j "illegal").toList.mapM (fun b => do pure ((← getS b "name"), (← getRL b "ranges")))
+  let exclRaw : Ranges.RL := (ign.map (·.2)).flatten ++ (ill.map (·.2)).flatten
+  let exclude := if exclRaw.isEmpty then [] else Ranges.compact exclRaw
+  let ty ← j.getObjVal? "type"
+  let tkind ← getS ty "kind"
+  let binsJ ← j.getObjVal? "bins"
+  let bins : Option (List BinM) ← match binsJ with
+    | Json.null =>
+      if tkind == "enum" then do
+        let vs ← (← getA ty "vals").toList.mapM (fun p => do
+          let a ← p.getArr?
+          pure ((← a[0]!.getInt?), (← a[1]!.getStr?)))
+        pure (buildEnumAuto vs exclude)
+      else do
+        pure ((buildAuto (← getS j "name") (← getN ty "w") (← getB ty "s") exclude (← getI j "auto_bin_max")).map ([·]))
+    | _ => do
+      let specs ← (← binsJ.getArr?).toList.mapM (asBinSpec exclude)
+      pure (specs.foldr (fun s acc => match s, acc with
+        | some (some b), some l => some (b :: l)
+        | some none, some l => some l
+        | _, _ => none) (some []))
+  let mkX (l : List (String × Ranges.RL)) : Option (List BinM) :=
+    l.foldr (fun p acc => match buildBin p.1 p.2 [], acc with
+      | some (some b), some l => some (b :: l)
+      | some none, some l => some l
+      | _, _ => none) (some [])
+  match bins, mkX ign, mkX ill with
+  | some b, some i, some l => pure (some { bins := b, ignore := i, illegal := l })
+  | _, _, _ => pure none
+
+def jNames (bs : List Pyvsc.Bins.BinM) : Json :=
+  let n := (Pyvsc.Bins.totalBins bs).toNat
+  Json.arr ((List.range n).map (fun i => jOpt Json.str (Pyvsc.Bins.binNameAt bs 0 (i : Nat)))).toArray
+
+open Pyvsc Pyvsc.Bins in
+def handleCp (op : String) (j : Json) : Except String Json := do
+  match op with
+  | "cp.mkCollection" =>
+      pure <| jOpt (fun (b : BinM) => Json.mkObj [("nbins", jInt b.nBins), ("names", jNames [b]),
+          ("repr", Json.str (toString (repr b)))])
+        (mkCollection (← getS j "name") (← getRL j "rl") (← getI j "nbins"))
+  | "cp.run" => do
+      match ← buildCp j with
+      | none => pure (Json.str "error")
+      | some cp =>
+        let samples ← (← getA j "samples").toList.mapM (fun s => do
+          let a ← s.getArr?
+          pure ((← a[0]!.getBool?), (← a[1]!.getInt?)))
+        let h := cp.run samples
+        let ev := samples.map (fun s =>
+          if s.1 then Json.arr #[Json.arr ((binsHits cp.bins 0 s.2).map jInt).toArray,
+                                 Json.arr ((binsHits cp.ignore 0 s.2).map jInt).toArray,
+                                 Json.arr ((binsHits cp.illegal 0 s.2).map jInt).toArray]
+          else Json.arr #[Json.arr #[], Json.arr #[], Json.arr #[]])
+        pure <| Json.mkObj [
+          ("nbins", jInt (totalBins cp.bins)), ("names", jNames cp.bins),
+          ("n_ign", jInt (totalBins cp.ignore)), ("ign_names", jNames cp.ignore),
+          ("n_ill", jInt (totalBins cp.illegal)), ("ill_names", jNames cp.illegal),
+          ("hits", Json.arr (h.hit.map jNat).toArray), ("ign", Json.arr (h.ign.map jNat).toArray),
+          ("ill", Json.arr (h.ill.map jNat).toArray), ("events", Json.arr ev.toArray)]
+  | _ => throw s!"unknown op {op}"
+
+open Pyvsc Pyvsc.Spec in
+/-- Spec-side evaluation of a coverpoint request: value lists per bin and hit counts -/
+def handleSpec (op : String) (j : Json) : Except String Json := do
+  match op with
+  | "s.cp" => do
+      let ign ← (← getA j "ignore").toList.mapM (fun b => getRL b "ranges")
+      let ill ← (← getA j "illegal").toList.mapM (fun b => getRL b "ranges")
+      let excl : Ranges.RL := ign.flatten ++ ill.flatten
+      let ty ← j.getObjVal? "type"
+      let tkind ← getS ty "kind"
+      let binsJ ← j.getObjVal? "bins"
+      let domainRL : Ranges.RL ← (if tkind == "enum" then pure [] else do
+        let w ← getN ty "w"; let s ← getB ty "s"
+        pure (if s then [(-(2 ^ (w - 1) : Int), (2 ^ (w - 1) : Int) - 1)] else [(0, (2 ^ w : Int) - 1)]))
+      let bins : List (List Int) ← match binsJ with
+        | Json.null =>
+          if tkind == "enum" then do
+            let vs ← (← getA ty "vals").toList.mapM (fun p => do let a ← p.getArr?; a[0]!.getInt?)
+            pure ((specVals (vs.map (fun v => (v, v))) excl).map ([·]))
+          else do
+            pure (chunks (specVals domainRL excl) (← getI j "auto_bin_max"))
+        | _ => do
+          let bl ← (← binsJ.getArr?).toList.mapM (fun b => do
+            let kind ← getS b "kind"
+            match kind with
+            | "bin" => do
+                let vs := specVals (← getRL b "ranges") excl
+                pure (if vs.isEmpty then [] else [vs])
+            | "bin_array" => pure (chunks (specVals (← getRL b "ranges") excl) (← getI b "nbins"))
+            | "wild" => do
+                let ps ← (← getA b "pats").toList.mapM asPat
+                let specs := ps.filterMap Wildcard.Pat.valmask
+                let dom := specVals domainRL []
+                pure [dom.filter (fun v => 0 ≤ v && specs.any (fun sp => agrees sp.1 sp.2 v.toNat))]
+            | "wild_array" => do
+                let ps ← (← getA b "pats").toList.mapM asPat
+                let vms := ps.filterMap Wildcard.Pat.valmask
+                let dom := specVals domainRL []
+                pure (chunks (dom.filter (fun v => 0 ≤ v && vms.any (fun sp => agrees sp.1 sp.2 v.toNat))) (← getI b "nbins"))
+            | _ => throw "bad kind")
+          pure bl.flatten
+      let samples ← (← getA j "samples").toList.mapM (fun s => do
+        let a ← s.getArr?
+        pure ((← a[0]!.getBool?), (← a[1]!.getInt?)))
+      let ignB := ign.filterMap (fun r => let vs := specVals r []; if vs.isEmpty then none else some vs)
+      let illB := ill.filterMap (fun r => let vs := specVals r []; if vs.isEmpty then none else some vs)
+      let cnt (bs : List (List Int)) := Json.arr (bs.map (fun b => jNat (countHits b samples))).toArray
+      pure <| Json.mkObj [("nbins", jNat bins.length), ("hits", cnt bins), ("ign", cnt ignB), ("ill", cnt illB),
+        ("bins", Json.arr (bins.map (fun b => Json.arr (b.map jInt).toArray)).toArray)]
+  | "s.matchStr" => pure <| jOpt Json.bool (matchStr (← getS j "s") (← getN j "v"))
+  | "s.agrees" => pure <| Json.bool (agrees (← getN j "value") (← getN j "mask") (← getN j "v"))
+  | _ => throw s!"unknown op {op}"
+
 def handle (j : Json) : Except String Json := do
   let op ← getS j "op"
   if op.startsWith "v." then handleValues op j
+  else if op.startsWith "r." then handleRanges op j
+  else if op.startsWith "w." then handleWild op j
+  else if op.startsWith "cp." then handleCp op j
+  else if op.startsWith "s." then handleSpec op j
   else throw s!"unknown op {op}"
 
 partial def loop (hin : IO.FS.Stream) (hout : IO.FS.Stream) : IO Unit := do
